@@ -2,14 +2,23 @@ from contracts import history, primitives, useractions
 from ._common import TRUSTED_TRACKS, UA_ALL
 
 LEVEL = "proof"
-TRUSTED = TRUSTED_TRACKS
+TRUSTED = TRUSTED_TRACKS + ["call-site contracts of the sub-action constructors used by UserUpdateSegmentation at the level of abstract world states (raise => world unchanged; return => a record with src/dst; registers/emits iff _top_level): proved of the real UserDeleteNode / UserAddNode constructors (clauses C11 on-raise, C02/C20 iff-top-level) and of the primitive UpdateNodeSeg (contracts/segprims.py); a.inverse() moves the world from dst(a) to src(a) (C01's conclusion)"]
 EXPLANATION = ("Ghost emission log: refresh.emit appends its arguments; every normal exit of a top-level user action, undo and "
-               "redo has exactly one entry (the new node for UserAddNode), nested and refused ones none.")
+               "redo has exactly one entry (the new node for UserAddNode), nested and refused ones none. All seven user actions are under contract: the "
+               "paint-driven UserUpdateSegmentation (contracts/paint.py) emits once after its sub-actions, which it creates with _top_level=False, and "
+               "carries new_value iff it created that node. The exhaustive paint-stroke enumeration is a native cross-check.")
 ASSUMPTIONS = ["connected callbacks are not executed (they cannot be known)"]
+NOT_UNDER_CONTRACT = []
+
+
+def bounded(tier, seed):
+    from pyvc.native_bridge import bounded_paint
+    return [bounded_paint(tier, "C20", "exactly one refresh per accepted stroke (carrying the new node when one is created), per undo and per redo; none when refused")]
 
 
 def units(tier):
-    return useractions.units(UA_ALL) + history.tracks_units()
+    from contracts import paint
+    return useractions.units(UA_ALL) + history.tracks_units() + paint.units()
 
 
 def witness(label, failure, seed):
